@@ -1622,7 +1622,13 @@ class VM:
             # Sort using Python's sort with custom key
             from functools import cmp_to_key
 
-            arr._elements.sort(key=cmp_to_key(compare_fn))
+            # The elements are collected first and written back afterwards, so a
+            # comparator that changes the array cannot disturb the sort itself
+            items = list(arr._elements)
+            items.sort(key=cmp_to_key(compare_fn))
+            if len(arr._elements) < len(items):
+                arr._elements.extend([UNDEFINED] * (len(items) - len(arr._elements)))
+            arr._elements[: len(items)] = items
             return arr
 
         methods = {
